@@ -12,6 +12,20 @@ R3  cache coherence of falcon.media.Handlers over its whole MRO, including the
     items) the cache_clear() must be reached on the exceptional exits too
 R4  the resolution rule inside the resolver closure
 R5  client_accepts / client_prefers swallow ValueError
+R6  values handed out by memoised parsing helpers are never mutated
+R7  get_media() of both Request flavours (and render_body() of both Response
+    flavours) ask the resolver about the content type AS IT IS - the attribute
+    read or a local bound to it, never a cut / re-cased / rewritten form
+    (frozen table CT_TRANSFORMS) - with the options' default_media_type and
+    without switching the 415 off; both flavours pass the same arguments
+
+R1's exact-parameter component (criterion 3) is decided semantically: the
+defining expression is evaluated by a small interpreter (_ParamModel) on all
+pairs of parameter-name sets over a three-name universe that are consistent
+with the tests dominating the return.  `len(a) == len(b)` and other look-alikes
+(EXACT_LOOKALIKES) are violations with a concrete pair of name sets; `a == b`,
+`not (a ^ b)`, two-way inclusion etc. pass; expressions outside the
+interpreter's language stay unknown idioms.
 
 Roles are found by def-use from contract names (attribute names main_type /
 subtype / params / quality, parameter positions of the resolver, the tuple
